@@ -20,7 +20,7 @@ for name in sorted(os.listdir(SD)):
     meta = json.load(open(os.path.join(d, 'meta.json')))
     ver = json.load(open(os.path.join(d, 'verified.json'))) if os.path.exists(os.path.join(d, 'verified.json')) else meta.get('confirmed_in_scratch_worktree', {})
     det = json.load(open(os.path.join(d, 'detection.json'))) if os.path.exists(os.path.join(d, 'detection.json')) else meta.get('detection', {})
-    rnd = 1 if name.endswith('-1') else (2 if name[-1] in 'ab' else 3)
+    rnd = 1 if name.endswith('-1') else {'a': 2, 'b': 2, 'c': 3, 'd': 3, 'e': 4, 'f': 4, 'g': 5, 'h': 5}.get(name[-1], 3)
     meta['property'] = meta.get('property', name.split('-')[0])
     meta['breaks_property'] = meta['property']
     meta['origin'] = 'round %d: a fresh sub-agent that was given only the text of the property and its own scratch git worktree of /repo under /tmp (nothing from /verif)' % rnd
